@@ -24,18 +24,35 @@ def _b(x):
 
 
 # ------------------------------------------------------------------------------------------------ logic
+def _force(x):
+    return x() if callable(x) and not isinstance(x, z3.ExprRef) else x
+
+
 def AND(*xs):
-    xs = _flatten(xs)
+    """Conjunction; arguments may be thunks (lambda: clause) which the native reading evaluates lazily."""
     if smt():
+        xs = _flatten([_force(x) for x in xs])
         return z3.And(*[_b(x) for x in xs]) if xs else z3.BoolVal(True)
-    return all(xs)
+    for x in xs:
+        v = _force(x)
+        if isinstance(v, (list, tuple, dict)):
+            v = all(_flatten([v]))
+        if not v:
+            return False
+    return True
 
 
 def OR(*xs):
-    xs = _flatten(xs)
     if smt():
+        xs = _flatten([_force(x) for x in xs])
         return z3.Or(*[_b(x) for x in xs]) if xs else z3.BoolVal(False)
-    return any(xs)
+    for x in xs:
+        v = _force(x)
+        if isinstance(v, (list, tuple, dict)):
+            v = any(_flatten([v]))
+        if v:
+            return True
+    return False
 
 
 def NOT(x):
@@ -46,8 +63,8 @@ def NOT(x):
 
 def IMPLIES(a, b):
     if smt():
-        return z3.Implies(_b(a), _b(b))
-    return (not a) or bool(b)
+        return z3.Implies(_b(a), _b(_force(b)))
+    return (not a) or bool(_force(b))
 
 
 def IFF(a, b):
